@@ -40,6 +40,9 @@ NUMS = {"<start>": ["<list>"], "<list>": ["<num>", "<num>,<list>"], "<num>": ["<
 PAIRS = {"<start>": ["<seq>"], "<seq>": ["<pair>", "<pair>;<seq>"], "<pair>": ["<key>=<val>", "<key>=<val>=<val>"], "<key>": ["k", "kk"], "<val>": ["v", "w", "<key>"]}
 
 
+ROW = {"<start>": ["<rows>"], "<rows>": ["<row>", "<row>\n<rows>"], "<row>": ["<c>" * 12, "<c>,<c>"], "<c>": ["x", "y", "z"]}
+
+
 def q(s):
     return '"' + s + '"'
 
@@ -91,6 +94,22 @@ def templates(rng) -> List[Tuple[str, Dict, str, str, str]]:
     out.append(("closure-implies", ASSGN, f'<var> = {q(lit_var)} implies <digit> = {q(lit_dig)}', f'forall <var> v in start: (forall <digit> d in start: (not (= v {q(lit_var)}) or (= d {q(lit_dig)})))', ""))
     out.append(("closure-and", ASSGN, f'<var> = {q(lit_var)} and <digit> = {q(lit_dig)}', f'forall <var> v in start: (forall <digit> d in start: ((= v {q(lit_var)}) and (= d {q(lit_dig)})))', "push-in into a conjunction"))
     out.append(("closure-and", NUMS, f'<dig> = "1" and str.len(<num>) = 1', 'forall <dig> d in start: (forall <num> n in start: ((= d "1") and (= (str.len n) 1)))', "push-in into a conjunction"))
+    # the same free nonterminal on its own and as the head of an XPath expression: one quantifier for both
+    n2 = rng.randint(4, 8)
+    out.append(("xpath-and-free-nonterminal", ASSGN, f'<assgn>.<var> = {q(lit_var)} or str.len(<assgn>) > {n2}', f'forall <assgn> a="{{<var> v}} := <rhs>" in start: ((= v {q(lit_var)}) or (> (str.len a) {n2}))', ""))
+    out.append(("xpath-and-free-nonterminal", ASSGN, f'str.len(<assgn>) > {n2} and <assgn>.<var> = {q(lit_var)}', f'forall <assgn> a="{{<var> v}} := <rhs>" in start: ((> (str.len a) {n2}) and (= v {q(lit_var)}))', ""))
+    # indexed child access with two-digit indices
+    idx = rng.randint(9, 12)
+    lit_c = rng.choice(["x", "y", "z"])
+    out.append(("xpath-index", ROW, f'<row>.<c>[{idx}] = {q(lit_c)}', 'forall <row> r="' + "<c>" * (idx - 1) + "{<c> e}" + "<c>" * (12 - idx) + f'" in start: (= e {q(lit_c)})', "two-digit index"))
+    out.append(("xpath-index", ROW, f'<row>.<c>[2] = {q(lit_c)}', f'(forall <row> r="<c>{{<c> e}}{"<c>" * 10}" in start: (= e {q(lit_c)}) and forall <row> r2="<c>,{{<c> f}}" in start: (= f {q(lit_c)}))', ""))
+    # free nonterminals below numeric quantifiers: the closure stays at top level
+    out.append(("closure-over-int-quantifier", NUMS, 'exists int n: str.len(<num>) = str.to.int(n)', 'forall <num> m in start: (exists int n: (= (str.len m) (str.to.int n)))', ""))
+    out.append(("closure-over-int-quantifier", ASSGN, f'exists int n: (str.to.int(n) = str.to.int(<digit>) + {k})', f'forall <digit> d in start: (exists int n: (= (str.to.int n) (+ (str.to.int d) {k})))', ""))
+    # infix string / regular-expression operators
+    out.append(("infix-prefix", ASSGN, f'<var> str.++ "x" = {q(lit_var + "x")}', f'forall <var> v in start: (= (str.++ v "x") {q(lit_var + "x")})', "infix str.++"))
+    out.append(("infix-prefix", NUMS, 'str.in_re(<num>, str.to_re("1") re.++ re.*(re.range("0", "9")))', 'forall <num> n in start: (str.in_re n (re.++ (str.to_re "1") (re.* (re.range "0" "9"))))', "infix re.++"))
+    out.append(("infix-prefix", ASSGN, f'<var> str.<= {q(lit_var)}', f'forall <var> v in start: (str.<= v {q(lit_var)})', "infix str.<="))
     return [t for t in out if t[3] is not None]
 
 
